@@ -42,7 +42,7 @@ EXPLANATION = (
     "monotonicity in the threshold (consequences)."
 )
 # obligations added during the build phase (seeding rounds, twins, mutation analysis)
-ADDED_IN_BUILD = " Also: the interval generator is decided for comprehensions or appends in an inner loop; its arguments are bound by NAME at the driver's call site and every role (n, min length, max length, growth factor) must receive the driver's own quantity (none left to a default)."
+ADDED_IN_BUILD = " Also: the interval generator is decided for comprehensions or appends in an inner loop; its arguments are bound by NAME at the driver's call site and every role (n, min length, max length, growth factor) must receive the driver's own quantity (none left to a default). The selector is discovered also when it receives subscripted tables; a selection that receives filtered tables violates WIRING selector-arguments."
 EXPLANATION = EXPLANATION + ADDED_IN_BUILD
 
 ASSUMPTIONS = [
@@ -112,7 +112,8 @@ def discover_helpers(ctx, drv: FuncInfo):
         if isinstance(n, ast.Call) and isinstance(n.func, (ast.Name, ast.Attribute)):
             r = ctx.P.resolve_expr(drv.module, n.func)
             if isinstance(r, FuncInfo) and r.cls is None and r is not gen:
-                names = {a.id for a in list(n.args) + [k.value for k in n.keywords] if isinstance(a, ast.Name)}
+                # the names the argument expressions are made of (`starts`, but also `starts[keep]`)
+                names = {x.id for a in list(n.args) + [k.value for k in n.keywords] for x in ast.walk(a) if isinstance(x, ast.Name)}
                 if gen_targets and gen_targets <= names:
                     sel = r
     return gen, sel
